@@ -222,7 +222,7 @@ def evaluate__mod_operator(self: XPathToken, context: ta.ContextType = None) \
     try:
         if isinstance(op1, int) and isinstance(op2, int):
             return abs(op1) % abs(op2) if op1 >= 0 else -(abs(op1) % abs(op2))
-        elif math.isinf(op2) and not math.isinf(op1) and op1 != 0:
+        elif isinstance(op2, float) and math.isinf(op2) and not math.isinf(op1) and op1 != 0:
             return op1 if self.parser.version != '1.0' else math.nan
         result = op1 % op2  # type: ignore[operator]
         if isinstance(result, float) and not math.isnan(result):
